@@ -74,13 +74,29 @@ Fixpoint insert_rows (krs : list (key * row)) (t : tbl) : option tbl :=
   | (k, r) :: krs' => if mem k t then None else insert_rows krs' (insert k r t)
   end.
 
-(* key recovery (insert_executor.go getPkValues):
-   key columns listed: the literal / bound values of those columns, one key per VALUES row;
-   key column omitted (auto increment): LastInsertId when one row was inserted; a batch is not recovered (the code panics) *)
+(* a listed key value of NULL or 0 in an AUTO_INCREMENT column means "generate" *)
+Definition valid_key_value (v : value) : bool :=
+  match v with VNull => false | VInt 0 => false | _ => true end.
+
+(* generated keys of one statement: LastInsertId is the first, the others follow (auto_increment_increment = 1) *)
+Fixpoint gen_keys (next : Z) (n : nat) : list key :=
+  match n with O => [] | S n' => [VInt next] :: gen_keys (next + 1)%Z n' end.
+
+Definition all_explicit (ks : list key) : bool := forallb (forallb valid_key_value) ks.
+Definition all_generated (ks : list key) : bool :=
+  forallb (fun k => match k with [v] => negb (valid_key_value v) | _ => false end) ks.
+
+(* key recovery (insert_executor.go getPkValues, after the repairs):
+   key columns listed with explicit values: those values, one key per VALUES row;
+   single key column listed with NULL / 0 in every row, or omitted: LastInsertId, LastInsertId + 1, ... one per row;
+   explicit and generated values mixed in one statement: refused *)
 Definition recover (listed : option (list key)) (last_id : Z) (nrows : nat) : option (list key) :=
   match listed with
-  | Some ks => Some ks
-  | None => if Nat.eqb nrows 1 then Some [[VInt last_id]] else None
+  | Some ks =>
+      if all_explicit ks then Some ks
+      else if all_generated ks then Some (gen_keys last_id (length ks))
+      else None
+  | None => Some (gen_keys last_id nrows)
   end.
 
 Definition at_insert (trk : list nat) (krs : list (key * row)) (listed : option (list key)) (last_id : Z) (t : tbl) : res :=
@@ -113,23 +129,19 @@ Definition at_upsert (pk all : list nat) (assigns_pk : bool) (m : list key) (u :
     end.
 
 (* what the database does with the key column of an INSERT: a listed value that is not NULL/0 is taken,
-   an omitted column gets consecutive generated values starting at LastInsertId *)
-Definition valid_key_value (v : value) : bool :=
-  match v with VNull => false | VInt 0 => false | _ => true end.
-
-Fixpoint gen_keys (next : Z) (n : nat) : list key :=
-  match n with O => [] | S n' => [VInt next] :: gen_keys (next + 1)%Z n' end.
-
+   NULL / 0 / an omitted column get consecutive generated values starting at LastInsertId *)
 Definition assigned_keys (listed : option (list key)) (last_id : Z) (nrows : nat) : list key :=
   match listed with
-  | Some ks => ks
+  | Some ks => if all_explicit ks then ks else gen_keys last_id (length ks)
   | None => gen_keys last_id nrows
   end.
 
+(* the statements whose keys are identified: everything but a mix of explicit and generated values (and generated
+   values of a composite key) *)
 Definition insert_supported (listed : option (list key)) (nrows : nat) : bool :=
   match listed with
-  | Some ks => forallb (forallb valid_key_value) ks && Nat.eqb (length ks) nrows
-  | None => Nat.eqb nrows 1
+  | Some ks => (all_explicit ks || all_generated ks) && Nat.eqb (length ks) nrows
+  | None => true
   end.
 
 (* ---- the primary-key argument index arithmetic of parsePkValuesFromStatement (after the repair):
